@@ -8,7 +8,7 @@ TEXT = {
          'Bounds derive from the solver tolerances (T_tol, P_tol times the slope across the two-phase window, K_tol); entropy 5e-3 of S_vap - S_liq.'),
  'C15': ('equilibrium-residual and history monitor: liquid / solid rows of the real stream recorded after each lle / sle call; activities recomputed from thermo.Gamma; results after call histories (use_cache on/off, temperature up and down) compared with a fresh solver on a fresh stream',
          'Exploration: seeded LLE mixtures of 2-5 chemicals with a partially miscible pair, three methods, scale factors, every top chemical, histories of 1-4 earlier calls; SLE with three solutes in 0-3 solvents, given and computed solubility.',
-         'Per-method resolution bounds (fixed-point 1e-7, shgo 1e-5 / 5e-3 on activities, differential evolution 2e-2); l/L labels compared up to a swap when no top chemical is named.'),
+         'Activities compared at 1e-3 of the largest activity for every method; larger deviations of the Gibbs minimisers are classified by mechanism (midpoint / within objective tolerance / beyond); scale and history bounds: fixed point 1e-7/1e-6, shgo 1e-5, differential evolution 2e-2 of the feed; l/L labels compared up to a swap when no top chemical is named.'),
  'C02': ('energy-ledger monitor: H, S, T, P, C of inlets and receiver recorded around real mix_from(energy_balance=True, Q) and separate_out calls and around H / h / S assignments; balances and read-backs evaluated against solver-derived bounds',
          'Exploration: seeded cases with 1-4 non-empty inlets (single-inlet path separately), liquid and gas, heat input as number or heat object, receiver among the inlets, empty inlets, separate_out, H/h/S setters on single- and multi-phase streams incl. assignment of the current value.',
          'Bound 1e-5 K x heat-capacity flow; entropy clauses skip (chemical, phase) pairs whose external heat-capacity integral fails the conditioning probe.'),
@@ -72,6 +72,8 @@ def main():
         pid = f'C{i:02d}'
         if pid in TEXT and os.path.exists(os.path.join(V, 'vt', 'workloads', pid.lower() + '.py')):
             tech, text, note = TEXT[pid]
+            if pid not in ('C07', 'C10'):
+                tech += '; plus ambient monitors: the same oracles attached to the real classes while the repository\'s own 215 tests and doctests run (one extra shard, vt/ambient.py)'
             checks.append({
                 'property_id': pid,
                 'quick_cmd': f'./check {pid} --tier quick',
